@@ -294,6 +294,95 @@ fn sweep_unit(tier: Tier, shard: usize, ctx: &mut Ctx) {
 }
 
 /// patterns for a long text: all short ones, plus factors / one-flip factors / over-long patterns
+
+// ---------------------------------------------------------------- real construction pipeline
+//
+// Everywhere else in this module the suffix array, BWT and `less` come from the oracle, to isolate
+// backward search from C03/C04.  A user, however, indexes a text through the library's own
+// pipeline; this family does the same for collections of MANY sentinel-separated sequences (the
+// rank transform inside suffix_array switches its integer width when alphabet size + number of
+// sentinels passes 255) and for a few ordinary texts.
+
+fn pipeline_text(reads: usize) -> Vec<u8> {
+    let pool: [&[u8]; 6] = [b"A", b"C", b"G", b"T", b"AC", b"GT"];
+    let mut t = vec![];
+    for i in 0..reads {
+        t.extend_from_slice(pool[(i * 5 + i / 6) % pool.len()]);
+        t.push(b'$');
+    }
+    t
+}
+
+fn check_pipeline(text: &[u8], k: u32, cc: &mut CaseCtx) {
+    use bio::data_structures::bwt::{bwt, less};
+    use bio::data_structures::suffix_array::suffix_array;
+    cc.nontrivial();
+    let alphabet = Alphabet::new(b"$ACGT");
+    let built = guard(|| {
+        let sa = suffix_array(text);
+        let b = bwt(text, &sa);
+        let l = less(&b, &alphabet);
+        let o = Occ::new(&b, k, &alphabet);
+        (sa, b, l, o)
+    });
+    let (sa, b, l, o) = match built {
+        Ok(x) => x,
+        Err(msg) => {
+            cc.outcome(&"panic");
+            cc.violation("C05/index-construction/panic", format!("{} sequences, k={}: {}", ti::sentinel_count(text), k, msg));
+            return;
+        }
+    };
+    let fm = FMIndex::new(&b, &l, &o);
+    let mut obs = vec![];
+    for p in [&b"A"[..], b"C", b"AC", b"CA", b"GT", b"TG", b"ACG", b"TT"] {
+        let (len, want_occ) = ti::longest_occurring_suffix_with_positions(text, p);
+        let want_kind = if len == p.len() { "Complete" } else if len == 0 { "Absent" } else { "Partial" };
+        match guard(|| fm.backward_search(p.iter())) {
+            Err(msg) => {
+                cc.violation("C05/backward_search/pipeline/panic", format!("pattern {:?}: {}", show(p), msg));
+                return;
+            }
+            Ok(r) => {
+                let (kind, got) = match r {
+                    BackwardSearchResult::Complete(iv) => ("Complete", Some((iv, p.len()))),
+                    BackwardSearchResult::Partial(iv, m) => ("Partial", Some((iv, m))),
+                    BackwardSearchResult::Absent => ("Absent", None),
+                };
+                obs.push((kind, want_occ.len()));
+                if kind != want_kind || got.map(|g| g.1) != if len == 0 { None } else { Some(len) } {
+                    cc.violation("C05/backward_search/pipeline/kind-differs", format!("{} sequences k={} pattern {:?}: got {} {:?}, expected {} (longest occurring suffix {})", ti::sentinel_count(text), k, show(p), kind, got.map(|g| g.1), want_kind, len));
+                    return;
+                }
+                if let Some((iv, _)) = got {
+                    match guard(|| { let mut v = iv.occ(&sa); v.sort(); v }) {
+                        Err(msg) => { cc.violation("C05/interval-occ/pipeline/panic", msg); return; }
+                        Ok(v) => if v != want_occ {
+                            cc.violation("C05/backward_search/pipeline/occurrences-differ", format!("{} sequences k={} pattern {:?}: {} positions, expected {}", ti::sentinel_count(text), k, show(p), v.len(), want_occ.len()));
+                            return;
+                        }
+                    }
+                }
+            }
+        }
+    }
+    cc.outcome(&obs);
+}
+
+fn pipeline_unit(tier: Tier, ctx: &mut Ctx) {
+    let mut counts: Vec<usize> = vec![1, 2, 3, 7, 100, 200];
+    counts.extend(245..=262);
+    if tier == Tier::Thorough {
+        counts.extend([300, 511, 512, 513, 1000]);
+    }
+    for r in counts {
+        let text = pipeline_text(r);
+        for k in [1u32, 3, 65] {
+            ctx.case(|| json!({"kind": "pipeline", "reads": r, "k": k}), |cc| check_pipeline(&text, k, cc));
+        }
+    }
+}
+
 fn family_patterns(text: &[u8], emb: &[u8; 4], tier: Tier) -> Vec<Vec<u8>> {
     let n = text.len();
     let body = &text[..n - 1];
@@ -396,19 +485,29 @@ impl Prop for C05Prop {
     fn units(&self, _tier: Tier) -> Vec<String> {
         let mut v: Vec<String> = (0..SWEEP_SHARDS).map(|i| format!("sweep-{}", i)).collect();
         v.extend((0..FAMILY_SHARDS).map(|i| format!("families-{}", i)));
+        v.push("pipeline".into());
         v
     }
     fn run_unit(&self, tier: Tier, unit: usize, ctx: &mut Ctx) {
         if unit < SWEEP_SHARDS {
             sweep_unit(tier, unit, ctx)
-        } else {
+        } else if unit < SWEEP_SHARDS + FAMILY_SHARDS {
             family_unit(tier, unit - SWEEP_SHARDS, ctx)
+        } else {
+            pipeline_unit(tier, ctx)
         }
     }
     fn death_key(&self, _case: &Value, how: &str) -> String {
         format!("backward_search-or-interval-occ/no-return/{}", how)
     }
     fn replay(&self, case: &Value, ctx: &mut Ctx) {
+        if case["kind"] == "pipeline" {
+            let r = case["reads"].as_u64().unwrap_or(1) as usize;
+            let k = case["k"].as_u64().unwrap_or(1) as u32;
+            let text = pipeline_text(r);
+            ctx.case(|| case.clone(), |cc| check_pipeline(&text, k, cc));
+            return;
+        }
         let text = unshow(case["text"].as_str().unwrap_or(""));
         if !ti::is_valid_text(&text) {
             return;
